@@ -10,12 +10,26 @@ class IntSub(int):
     members or numpy integers): still an integer delta time."""
 
 
+_ORDER = [0]
+
+
 def kind_msg(kd, dt, odd_int=False):
     """Real message for kind index kd (1-based, see SmfWire.Kinds)."""
     import mido
     if odd_int and isinstance(dt, int) and dt >= 0:
         dt = IntSub(dt)
-    M, MM, UM = mido.Message, mido.MetaMessage, mido.UnknownMetaMessage
+    MM, UM = mido.MetaMessage, mido.UnknownMetaMessage
+    _ORDER[0] += 1
+
+    def M(typ, **kw):
+        # what a file stores is a function of the attribute values: every second message is given its
+        # attributes in the reverse order, every third with the time first
+        items = list(kw.items())
+        if _ORDER[0] % 2:
+            items.reverse()
+        elif _ORDER[0] % 3 == 0:
+            items = items[-1:] + items[:-1]
+        return mido.Message(typ, **dict(items))
     if dt == -2:
         dt = 0.5                   # non-integer time
     table = {
